@@ -38,6 +38,13 @@ pub fn to_argv(tok: &str, rng: &mut Rng) -> Vec<String> {
         "name" => vec![s("-name"), glob_escape(&text(v))],
         "type" => vec![s("-type"), s(v)],
         "lit" => vec![s("-printf"), printf_escape(&text(v), rng)],
+        // an action whose output goes to a file: nothing on standard output, and no default -print
+        "fout" => match v {
+            "ls" => vec![s("-fls"), s("/dev/null")],
+            "print" => vec![s("-fprint"), s("/dev/null")],
+            "print0" => vec![s("-fprint0"), s("/dev/null")],
+            _ => vec![s("-fprintf"), s("/dev/null"), s("%p\\n")],
+        },
         "vp" => vec![s("-printf"), format!("{}%p\\n", printf_escape(&text(v), rng))],
         "mindepth" => vec![s("-mindepth"), s(v)],
         "maxdepth" => vec![s("-maxdepth"), s(v)],
